@@ -56,6 +56,39 @@ type elementLeaf struct {
 	spent       bool
 }
 
+// MarshalJSON implements json.Marshaler. The element hash and spent flag are
+// included so that an update that has been through its JSON form can still
+// recompute the hashes of updated leaves.
+func (l elementLeaf) MarshalJSON() ([]byte, error) {
+	var se types.StateElement
+	if l.StateElement != nil {
+		se = l.StateElement.Share()
+	}
+	return json.Marshal(struct {
+		LeafIndex   uint64          `json:"leafIndex"`
+		MerkleProof []types.Hash256 `json:"merkleProof,omitempty"`
+		ElementHash types.Hash256   `json:"elementHash"`
+		Spent       bool            `json:"spent"`
+	}{se.LeafIndex, se.MerkleProof, l.elementHash, l.spent})
+}
+
+// UnmarshalJSON implements json.Unmarshaler.
+func (l *elementLeaf) UnmarshalJSON(b []byte) error {
+	var v struct {
+		LeafIndex   uint64          `json:"leafIndex"`
+		MerkleProof []types.Hash256 `json:"merkleProof,omitempty"`
+		ElementHash types.Hash256   `json:"elementHash"`
+		Spent       bool            `json:"spent"`
+	}
+	if err := json.Unmarshal(b, &v); err != nil {
+		return err
+	}
+	l.StateElement = &types.StateElement{LeafIndex: v.LeafIndex, MerkleProof: v.MerkleProof}
+	l.elementHash = v.ElementHash
+	l.spent = v.Spent
+	return nil
+}
+
 // hash returns the leaf's hash, for direct use in the Merkle tree.
 func (l elementLeaf) hash() types.Hash256 {
 	buf := make([]byte, 1+32+8+1)
